@@ -561,3 +561,61 @@ def c15(pid, tier, replay):
 
 
 REGISTRY["C15"] = c15
+
+
+def c18(pid, tier, replay):
+    import random
+    import upkeep
+    scr = vlib.Scratch(pid)
+    out = casecheck.CaseOutcome(pid, tier, ["C18_"])
+    # the design, exhaustively (every file state x missing directories x crash after every mutation x 3 runs)
+    cfg = ('SPECIFICATION Spec\nCONSTANTS\n  Template <- T\n  UserPaths <- U\n  Root = "hidi-config"\n'
+           '  Blacklist = "hidi-config/device blacklist.txt"\n  MaxRuns = %d\n'
+           'INVARIANTS UserUntouchedStep BlacklistOnlyCreated Restored CompleteWhenAbsent\n'
+           'PROPERTIES UserNeverLost NoMutationWhenRestored\nCHECK_DEADLOCK FALSE\n' % (3 if tier == "quick" else 4))
+    res = vlib.run_tlc(scr, "MC_upkeep", cfg, workers=8, timeout=1200)
+    if not res.completed:
+        raise Infra("Upkeep.tla does not satisfy its properties:\n" + res.tail(40))
+    out.states += res.distinct
+    out.transitions += res.generated
+    out.notes.append("Upkeep.tla (3 factory files x 6 states, directories missing, crash after every mutation): %d distinct states, "
+                     "all properties hold" % res.distinct)
+    hidi = build_hidi(scr)
+    tpl, files = upkeep.load_template(scr.repo)
+    if replay:
+        with open(replay) as f:
+            rp = json.load(f)
+        want = rp["case"].get("tree")
+        trees = [t for t in upkeep.gen_trees(tpl, files, rp.get("seed", vlib.seed()), "thorough") if t[0] == want] or \
+                upkeep.gen_trees(tpl, files, vlib.seed(), "quick")[:3]
+    else:
+        trees = upkeep.gen_trees(tpl, files, vlib.seed(), tier)
+    crash_points = 4 if tier == "quick" else 400
+    rng = random.Random(vlib.seed())
+    lines_all = []
+    def one(i_t):
+        i, (name, spec) = i_t
+        wd = scr.path("upk-%d" % (i % 16))
+        return upkeep.run_case(hidi, wd + "-%d" % i, name, spec, files, random.Random(vlib.seed() * 1000 + i), crash_points)
+    with ThreadPoolExecutor(max_workers=12) as ex:
+        for ls in ex.map(one, enumerate(trees)):
+            lines_all.extend(ls)
+    t = scr.fresh("upkeep") + ".ndjson"
+    with open(t, "w") as f:
+        f.write(json.dumps({"ev": "template", "entries": tpl, "root": upkeep.ROOT, "blacklist": upkeep.BL}) + "\n")
+        for l in lines_all:
+            f.write(json.dumps(l) + "\n")
+    r = vlib.validate_trace(scr, "UpkeepHistTrace", t, xmx="4g")
+    out.add(t, r, sample_filter=lambda d: d.get("kind") == "crashed" and len(d.get("muts", [])) > 1)
+    out.extra["initial_trees"] = len(trees)
+    out.extra["crash_runs"] = sum(1 for l in lines_all if l["kind"] == "crashed")
+    out.notes.append("%d initial trees (directory missing; each factory file absent / empty / truncated / modified / longer; factory "
+                     "directories missing; seeded combinations; user files, custom hidi.toml and blacklist, extra files), each run "
+                     "twice, plus SIGKILL at up to %d file-system calls per tree followed by an undisturbed run" % (len(trees), crash_points))
+    return out.finish(rule="one case = one run of the real updateHIDIConfiguration under strace on a prepared tree; judged by "
+                           "UpkeepHist!Judge from the mutation list and the tree snapshots before/after",
+                      assumptions=["files replaced by directories, symlinks and permission errors are outside the quantifier",
+                                   "interruption = SIGKILL on entering a file-system call (strace fault injection)"])
+
+
+REGISTRY["C18"] = c18
